@@ -25,6 +25,7 @@ pub mod reqwest {
     use vstd::prelude::*;
     use crate::*;
     verus! {
+    #[derive(Debug)]
     pub struct Error { pub x: u8 }
     impl vstd::std_specs::convert::FromSpecImpl<Error> for crate::acme_common::error::Error {
         open spec fn obeys_from_spec() -> bool { false }
@@ -50,6 +51,7 @@ pub mod reqwest {
         pub const USER_AGENT: HeaderName = HeaderName { x: 3 };
         #[derive(Debug)]
         pub struct InvalidHeaderValue { pub x: u8 }
+        #[derive(Debug)]
         pub struct ToStrError { pub x: u8 }
         // value: Some(text) iff the header value is visible ASCII (what `to_str` accepts)
         pub struct HeaderValue { pub text: Ghost<Option<Seq<char>>> }
